@@ -160,17 +160,17 @@ MUTANTS: dict[str, dict[str, list[tuple[str, str, str]]]] = {
                                             'self._linkage.insert(self._committer, dumper, 0) if not self._linkage[self._committer] else None')],
     },
     'C11': {
+        'any-dying-subscription-frees-the-port': [('forml/flow/_graph/port.py', 'if ports and ports.get(self.port) == id(self):',
+                                                   'if ports and self.port in ports:')],
         'publish-rollback-removed': [('forml/flow/_graph/port.py',
-                                      """            Subscription._PORTS[subscriber].discard(port)  # pylint: disable=protected-access
+                                      """            Subscription._PORTS[subscriber].pop(port, None)  # pylint: disable=protected-access
             raise err""", """            raise err""")],
         'double-subscription-test-dropped': [('forml/flow/_graph/port.py',
-                                              """        if port in cls._PORTS[subscriber]:
+                                              """        if port in ports:
             raise _exception.TopologyError('Double subscription')
 """, '')],
         'apply-train-collision-test-dropped': [('forml/flow/_graph/port.py',
-                                                """        if cls._PORTS[subscriber] and (
-            isinstance(port, Apply) ^ any(isinstance(s, Apply) for s in cls._PORTS[subscriber])
-        ):
+                                                """        if ports and (isinstance(port, Apply) ^ any(isinstance(s, Apply) for s in ports)):
             raise _exception.TopologyError('Apply/Train collision')
 """, '')],
         'fork-train-collision-test-dropped': [('forml/flow/_graph/atomic.py',
